@@ -220,7 +220,9 @@ def failure_kind(r, known):
     for v in r['viol']:
         if not match_known(known, v):
             return ('viol', v.get('clause'))
-    if r['div']:
+    if r['div'] and not r['viol']:
+        # (a divergence on a scenario with a known finding is explained by it -- see the verdict below --
+        # and must not be what a divergence is shrunk to)
         return ('div',)
     return None
 
